@@ -154,6 +154,8 @@ ObsEnd(o, rec) ==
                    <<o.pfin, "C03", "stream-ended-without-ParsingFinished">>,
                    <<cut \/ supplied = InsSet(o), "C04", "supplied-feature-never-ingested">>,
                    <<o.tripped \/ \A s \in expectedScen : o.at[s].nstarted > 0, "C04", "supplied-scenario-never-attempted">>,
+                   <<~o.cfg.fail_fast \/ o.tripped \/ \A s \in expectedScen : o.at[s].nstarted > 0,
+                     "C08", "fail-fast-run-stopped-although-nothing-failed-finally">>,
                    <<o.tripped \/ \A s \in DOMAIN o.at : o.at[s].ph # "wait", "C05", "failed-attempt-with-budget-left-never-retried">>,
                    <<\A s \in DOMAIN o.at : o.at[s].ph # "run", "C08", "attempt-never-finished">>})
        EXCEPT !.ph = "ended"]
@@ -484,7 +486,8 @@ Obs(o, rec) ==
     [] kind = "completed" -> ObsCompleted(o, rec)
     [] kind = "fin" -> ObsFin(o, rec)
     [] kind = "begin" -> ObsBegin(o, rec)
-    [] kind = "trip" -> [o EXCEPT !.trippedH = TRUE]
+    [] kind = "trip" -> [Chk(o, rec, {<<o.tripped, "C08", "fail-fast-tripped-without-a-final-failure">>})
+                           EXCEPT !.trippedH = TRUE]
     [] kind = "quiescent" -> ObsQuiescent(o, rec)
     [] kind = "hook_silenced" -> ObsSilenced(o, rec)
     [] kind = "hook_restored" -> [o EXCEPT !.hookRestored = TRUE]
